@@ -569,6 +569,7 @@ func C02(c *core.Ctx) {
 		addressing(c, "R5", n)
 	}
 	handedOn(c, "R5", []string{"PDR", "FAR"})
+	driverHandsOver(c, "R5", []string{"PDR", "FAR"})
 	handlerDispatch(c, "R5", map[string]bool{"PDR": true, "FAR": true})
 	// "id not in this session" excuses an Update from reaching the driver only if the session's id sets are
 	// accurate: ids are forgotten only after a successful Remove (C01 R4)
@@ -649,6 +650,7 @@ func C03(c *core.Ctx) {
 		addressing(c, "R5", n)
 	}
 	handedOn(c, "R5", []string{"QER", "URR", "BAR"})
+	driverHandsOver(c, "R5", []string{"QER", "URR", "BAR"})
 	handlerDispatch(c, "R5", map[string]bool{"QER": true, "URR": true, "BAR": true})
 	shareFrom(c, "C01", "R5", func(o *core.Obligation) bool {
 		return o.Rule == "R4" && strings.Contains(o.Key, "/R4/forget-") && (strings.Contains(o.Key, ":QER:") || strings.Contains(o.Key, ":URR:") || strings.Contains(o.Key, ":BAR:"))
@@ -660,6 +662,12 @@ func C03(c *core.Ctx) {
 		})
 	}
 	c03Periodic(c, "R8", true)
+	// "... and a URR without that trigger is not": SEIDs and URR ids are reused, so an unregistration that misses its
+	// (SEID, URR) pair leaves an entry behind under which a later URR without the periodic trigger is queried
+	// periodically (group-table discipline of the periodic server, C15 R2)
+	shareFrom(c, "C15", "R8", func(o *core.Obligation) bool {
+		return o.Rule == "R2" && (strings.Contains(o.Key, "/R2/del-removes-pair") || strings.Contains(o.Key, "/R2/drop-iff-group-empty"))
+	}, 2, "removal rules of the periodic server")
 }
 
 // R8 periodic registration
@@ -870,4 +878,166 @@ func handedOn(c *core.Ctx, rule string, kinds []string) {
 		}
 	}
 	c.Floor(rule, n, 2*len(kinds), "Sess Create/Update methods with a driver call")
+}
+
+// errOrigins names where an error value can come from: the package of every call that produced it, followed
+// through own functions (their returned error values), wrappers (errors.Wrap*/WithMessage*), phis and cells;
+// "local" stands for an error constructed on the spot.
+func errOrigins(p *core.Program, v ssa.Value, out map[string]bool, seen map[ssa.Value]bool, depth int) {
+	if v == nil || seen[v] || depth > 8 {
+		return
+	}
+	seen[v] = true
+	switch x := v.(type) {
+	case *ssa.Const:
+		return
+	case *ssa.Phi:
+		for _, e := range x.Edges {
+			errOrigins(p, e, out, seen, depth)
+		}
+	case *ssa.MakeInterface:
+		out["local"] = true
+	case *ssa.ChangeInterface:
+		errOrigins(p, x.X, out, seen, depth)
+	case *ssa.Extract:
+		errOrigins(p, x.Tuple, out, seen, depth)
+	case *ssa.UnOp:
+		if u := core.Unwrap(x); u != ssa.Value(x) {
+			errOrigins(p, u, out, seen, depth)
+			return
+		}
+		// a cell written in several places: every stored value
+		if a, ok := x.X.(*ssa.Alloc); ok && a.Referrers() != nil {
+			for _, r := range *a.Referrers() {
+				if st, ok := r.(*ssa.Store); ok && st.Addr == ssa.Value(a) {
+					errOrigins(p, st.Val, out, seen, depth)
+				}
+			}
+			return
+		}
+		out["memory"] = true
+	case *ssa.Call:
+		if x.Call.IsInvoke() {
+			out["invoke:"+x.Call.Method.Name()] = true
+			return
+		}
+		f := core.Callee(x)
+		if f == nil || f.Pkg() == nil {
+			out["dynamic"] = true
+			return
+		}
+		path := f.Pkg().Path()
+		if strings.HasSuffix(path, "pkg/errors") || path == "errors" || path == "fmt" {
+			wrapped := false
+			for _, a := range x.Call.Args {
+				if isErrorType(a.Type()) {
+					wrapped = true
+					errOrigins(p, a, out, seen, depth)
+				}
+			}
+			if !wrapped {
+				out["local"] = true
+			}
+			return
+		}
+		fn := core.StaticFn(x)
+		if fn != nil && p.IsOwnFn(fn) && fn.Blocks != nil {
+			for _, b := range fn.Blocks {
+				if r, ok := b.Instrs[len(b.Instrs)-1].(*ssa.Return); ok && len(r.Results) > 0 {
+					last := r.Results[len(r.Results)-1]
+					if isErrorType(last.Type()) {
+						errOrigins(p, last, out, seen, depth+1)
+					}
+				}
+			}
+			return
+		}
+		out[path] = true
+	default:
+		out[fmt.Sprintf("%T", v)] = true
+	}
+}
+
+// driverHandsOver: inside the gtp5g driver a well-formed Create/Update IE always becomes a netlink request.  Between
+// the entry of Gtp5g.<Verb><Kind> and its go-gtp5gnl call, a branch may leave the method because the IE cannot be
+// decoded or is not supported — never because some OTHER exchange with the data plane failed (reading a rule back,
+// flushing buffered packets, arming a timer): those are side tasks, and the rule the SMF specified must still be
+// handed over.
+func driverHandsOver(c *core.Ctx, rule string, kinds []string) {
+	p := c.P
+	for _, kind := range kinds {
+		for _, verb := range []string{"Create", "Update"} {
+			name := verb + kind
+			fn := fnOf(c, rule, pkgFwd, "Gtp5g", name)
+			if fn == nil {
+				continue
+			}
+			var hand ssa.CallInstruction
+			core.Instrs(fn, func(in ssa.Instruction) {
+				if ci, ok := in.(ssa.CallInstruction); ok {
+					if f := core.Callee(ci); f != nil && f.Pkg() != nil && f.Pkg().Path() == core.PkgGtp5gnl && strings.HasPrefix(f.Name(), name) {
+						hand = ci
+					}
+				}
+			})
+			if hand == nil {
+				continue // reported by the addressing rule
+			}
+			cb := hand.Block()
+			reach := map[*ssa.BasicBlock]bool{}
+			var walk func(b *ssa.BasicBlock)
+			walk = func(b *ssa.BasicBlock) {
+				if reach[b] {
+					return
+				}
+				reach[b] = true
+				for _, pr := range b.Preds {
+					walk(pr)
+				}
+			}
+			for _, pr := range cb.Preds {
+				walk(pr)
+			}
+			bad := ""
+			var badPos token.Pos
+			for _, b := range fn.Blocks {
+				if !reach[b] {
+					continue
+				}
+				ifi, ok := b.Instrs[len(b.Instrs)-1].(*ssa.If)
+				if !ok {
+					continue
+				}
+				exits := false
+				for _, s := range b.Succs {
+					if returnAvoiding(s, func(x *ssa.BasicBlock) bool { return x == cb }) != nil {
+						exits = true
+					}
+				}
+				if !exits {
+					continue
+				}
+				x, _, isNil := core.NilCmp(ifi.Cond)
+				if !isNil || !isErrorType(x.Type()) {
+					continue
+				}
+				or := map[string]bool{}
+				errOrigins(p, x, or, map[ssa.Value]bool{}, 0)
+				for o := range or {
+					if o == core.PkgGtp5gnl || o == core.PkgNL || strings.HasPrefix(o, "invoke:") || strings.HasSuffix(o, "/perio") || strings.HasSuffix(o, "/buffnetlink") {
+						if bad == "" {
+							bad = "an error of " + o + " ends the method before the rule is handed over"
+							badPos = ifi.Cond.Pos()
+						}
+					}
+				}
+			}
+			pos := hand.Pos()
+			if bad != "" && badPos.IsValid() {
+				pos = badPos
+			}
+			c.Check(rule, "driver-hands-over:"+name, pos, bad == "", "Gtp5g."+name+" gives up before its netlink request only when the IE cannot be decoded, not when another data-plane exchange failed"+
+				map[bool]string{true: "", false: " — " + bad}[bad == ""])
+		}
+	}
 }
